@@ -94,7 +94,7 @@ theorem ElemsOK.congr {s s' : State} (h : s'.peers.map eskel = s.peers.map eskel
   · intro p' hp'
     obtain ⟨p, hp, _, hel⟩ := key p' hp'
     have := congrArg (List.map (fun t : Bytes × Nat => t.1)) hel
-    simp only [List.map_map, Function.comp] at this
+    simp only [List.map_map] at this
     have h2 : (p'.elements.map (·.path)) = p.elements.map (·.path) := this.symm
     rw [h2]
     exact ok.pathNodup p hp
